@@ -55,12 +55,13 @@ def constrained_specs():
 
 
 def run(ctx):
-    ctx.rule = ('inputs = valid BER/CER/DER encodings of T, encodings of neighbouring types (member dropped, retagged, element duplicated), and '
+    ctx.rule = ('inputs = valid BER/CER/DER encodings of T (random types; every presence pattern of three-member SEQUENCE/SET types, also with an untagged CHOICE member), encodings of neighbouring types (member dropped, retagged, element duplicated), and '
                 'mutants of both and single structural edits (member added/removed/repeated/swapped, node emptied, length form switched); only accepted inputs count (acceptance rate in the distribution); checked on acceptance: independent '
                 "well-formedness, the library's encoder accepts the value, decode(encode(value)) is abstractly equal; plus constrained types "
                 '(value range, size of OCTET STRING, size of SEQUENCE OF/SET OF); time types with 13 damaged or non-canonical texts under each codec; REAL with 200..255-octet exponents')
     search_only = getattr(ctx, 'search_only', False)
     cases = codec.gen_cases(ctx, ctx.n(100, 2000), depth=3)
+    cases += codec.presence_grid_cases(ctx, every=3 if ctx.tier == 'quick' else 1)     # every OPTIONAL/DEFAULT pattern, also around an untagged CHOICE
     exprs, meta = [], []
     for c in cases:
         cdc = ctx.rng.choice(['BER', 'BER', 'CER', 'DER'])
